@@ -449,6 +449,7 @@ package raft
 //@ iface Transport.RegsiterInstallSnapshotHandler(handler) ()
 
 //@ func Raft.restore
+//@   flags lockheld
 //@   requires r.lastApplied <= r.commitIndex
 //@   requires r.log != nil && r.stateStorage != nil && r.snapshotStorage != nil && r.transport != nil && r.fsm != nil
 //@   ensures [term-vote] err == nil ==> r.currentTerm == persTerm && r.votedFor == persVote
@@ -496,14 +497,16 @@ package raft
 //@   ensures [spec] result == committedThisTermSpec(r)
 
 //@ func lease.renew
+//@   flags lockheld
 //@   ensures [spec] l.expiration == now + l.duration && now >= old(now)
 //@ func lease.isValid
+//@   flags lockheld
 //@   ensures [spec] result == (now < l.expiration) && now >= old(now)
 //@ func newLease
 //@   ensures [spec] result != nil && result.duration == duration && result.expiration == now && now >= old(now)
 
 //@ func operationManager.appliableReadOnlyOperations
-//@   flags fresh-result
+//@   flags lockheld fresh-result
 //@   ensures [nonnil] forall o *Operation :: o in r.pendingReadOnly ==> o != nil
 //@   requires r.pendingReadOnly != nil
 //@   requires forall o *Operation :: o in r.pendingReadOnly ==> o != nil
